@@ -148,6 +148,10 @@ struct Ctx<'a> {
 }
 
 fn gen_scalar(rng: &mut Rng, sw: &Swarm) -> Value {
+    if sw.formats && rng.chance(1, 10) {
+        // string formats that map to library types (uuid, chrono, std::net)
+        return json!({"type": "string", "format": *rng.pick(&["uuid", "date-time", "date", "ip", "ipv4"])});
+    }
     match rng.below(if sw.formats { 7 } else { 4 }) {
         0 => json!({"type": "string"}),
         1 => json!({"type": "integer"}),
@@ -273,6 +277,9 @@ fn gen_object(rng: &mut Rng, cx: &mut Ctx, depth: u32, lo: usize, hi: usize) -> 
     }
     if rng.chance(1, 5) {
         o["additionalProperties"] = json!(false);
+    } else if cx.sw.maps && cx.sw.defaults == 0 && rng.chance(1, 6) {
+        // an open object whose extra members are typed: a flattened map member
+        o["additionalProperties"] = gen_scalar(rng, cx.sw);
     }
     o
 }
